@@ -18,7 +18,7 @@ from drive_layers import ints
 L = tf.keras.layers
 CLASSES = ["QDense", "QConv1D", "QConv2D", "QDepthwiseConv2D", "QSeparableConv2D", "QSimpleRNN", "QLSTM", "QGRU",
            "QBatchNormalization", "QScaleShift"]
-VARIANTS = ["fixed", "po2", "auto_po2_bounds", "auto_axis", "ternary_auto", "binary_axis"]
+VARIANTS = ["fixed", "po2", "auto_po2_bounds", "auto_po2_unsigned", "auto_axis", "ternary_auto", "binary_axis"]
 INDEP = {"fixed", "po2"}
 
 
@@ -97,8 +97,12 @@ def export_case(cls, variant, events, errors, freeze=False):
           ev["sg"] = flat(sg)
         else:
           ev["sgbad"] = 1                 # the signs entry of this weight is missing / belongs to another weight
+      ev["int"] = int(np.asarray(getattr(q, "integer", 0)).reshape(-1)[0]) if kind == "auto_po2" else 0
+      ev["qs"] = [[1, 0]] * qw.size
       if kind == "auto_po2":
         ev["sc"] = flat(np.broadcast_to(np.asarray(ent["scales"][j], dtype=np.float32), qw.shape))
+        qs = q.scale.numpy() if hasattr(q.scale, "numpy") else np.asarray(q.scale)
+        ev["qs"] = flat(np.broadcast_to(np.asarray(qs, dtype=np.float32), qw.shape))
       events.append(ev)
   d2 = qutils.model_save_quantized_weights(m)
   second = all(np.array_equal(a, b) for a, b in zip(w_after, m.get_weights())) and same_dict(d1, d2)
@@ -165,7 +169,7 @@ def main():
       errors.append({"k": "exc", "cls": "bnfuse", "variant": "", "freeze": False, "exc": repr(e)[:300]})
   for ev in events:
     for k, v in (("w1", [[0, 0]]), ("qw", [[0, 0]]), ("hw", [[0, 0]]), ("sg", [[1, 0]]), ("sc", [[1, 0]]), ("qkind", "other"),
-                 ("bits", 0), ("kn", 1), ("sgbad", 0), ("indep", 0), ("frozen", 0), ("pred", 1), ("second", 1), ("gam", [0]), ("J", [0]),
+                 ("bits", 0), ("kn", 1), ("sgbad", 0), ("int", 0), ("qs", [[1, 0]]), ("indep", 0), ("frozen", 0), ("pred", 1), ("second", 1), ("gam", [0]), ("J", [0]),
                  ("b", [0]), ("mean", [0]), ("beta", [0]), ("inv", [0]), ("fb", [0])):
       ev.setdefault(k, v)
   write_ndjson("%s.%d.ndjson" % (prefix, shard), events)
